@@ -2,6 +2,7 @@ package main
 
 import (
 	"fmt"
+	"time"
 	"go/constant"
 	"go/token"
 	"go/types"
@@ -98,6 +99,9 @@ type Exec struct {
 	capFork      bool
 	lastDiff     string
 	tier         int
+	formatCalls  int
+	formatFailAt int
+	deadline     time.Time
 	inputs       []inputDesc
 	choiceLog    []choiceRec
 	onceDone     map[string]bool
@@ -468,6 +472,9 @@ func (ex *Exec) runFrame(fr *Frame) {
 			n++
 			if ex.steps > ex.maxSteps {
 				panic(pathEnd{"budget", "step budget exceeded"})
+			}
+			if ex.steps&1023 == 0 && !ex.deadline.IsZero() && time.Now().After(ex.deadline) {
+				panic(pathEnd{"budget", "time budget exhausted inside a path"})
 			}
 			k := ex.visit(fr, instr)
 			if k == kReturn {
